@@ -318,7 +318,9 @@ Theorem bal_expand_top j value p :
 Proof.
   intros Hv Hs. unfold expand_top. apply tpl_balanced; [tw|]. fin.
   - apply balanced_flat_map. apply Forall_forall. intros n _. apply bal_pp_node_const.
-  - apply bal_pp_stmt. exact Hs.
+  - destruct (is_wild p).
+    + apply tpl_balanced; [tw|]. fin.
+    + apply bal_pp_stmt. exact Hs.
 Qed.
 
 (* ---- from the pattern's own token lists to the statement's -------------------------------- *)
